@@ -472,7 +472,7 @@ func main() {
 		depth       int
 	}
 	hs := []hcfg{
-		{"hex", "coins", r.Pick(5, 6)},
+		{"hex", "coins", r.Pick(4, 6)},
 		{"lim", "token", r.Pick(4, 6)},
 	}
 	if !r.Quick() {
